@@ -28,7 +28,51 @@ import (
 )
 
 func init() {
-	Registry["C12"] = Prop{Gen: c12Gen, Replay: c12Replay}
+	Registry["C12"] = Prop{Gen: func(r *Run) {
+		if r.Mode == "queue" {
+			c12QueueGen(r)
+		} else {
+			c12Gen(r)
+		}
+	}, Replay: func(r *Run, ops []map[string]interface{}) {
+		if len(ops) > 0 && ops[0]["op"] == "queue" {
+			C13Replay(r, ops)
+		} else {
+			c12Replay(r, ops)
+		}
+	}}
+}
+
+// c12QueueGen (mode "queue"): the queue that carries travelers from a jump back to its mark, on
+// its own — C13's executor and model for engine/queue.  One element at a time ("pingpong": the
+// situation of the LAST traveler or the last termination signal of a loop, which nothing else will
+// flush out of the queue), the stall patterns round its output buffer, and the plain patterns.
+func c12QueueGen(r *Run) {
+	r.Rule = "queue cases: (input length, latency pattern, GOMAXPROCS)"
+	c13Base = r.Dir
+	g := &c13Gen{r: r, samples: map[string]int{}}
+	// ~100 µs per hand-over on the unchanged tree (the queue's output side busy-waits): 3 s per case,
+	// deadline 60 s; GOMAXPROCS >= 4, the number of spinning goroutines of a case
+	n, reps := 30000, 1
+	if r.Tier == "thorough" {
+		reps = 6
+	}
+	for i := 0; i < reps; i++ {
+		for _, p := range []int{4, 8, 8, 16, 16} {
+			g.queue(n, "pingpong", p)
+		}
+	}
+	for _, k := range []int{49, 50, 51, 52} {
+		g.queue(k+40, fmt.Sprintf("stall%d", k), 4)
+	}
+	for _, lat := range c13Lats {
+		g.queue(300+r.Rng.Intn(900), lat, Pick(r.Rng, []int{1, 2, 4, 8}))
+	}
+	opsOut, obs := c13RunIsolated(g.ops)
+	for x := range opsOut {
+		r.Emit(opsOut[x], obs[x])
+	}
+	r.Exhaustive = false
 }
 
 // c12DeadlineSec: a loop that has not closed its result stream by then counts as hung (the
@@ -269,6 +313,54 @@ func (w *c12World) exec(op jm) (obs jm, timedOut bool) {
 	c12Noise(noise, stop)
 	variants := map[string]interface{}{}
 	var first string
+	if par, ok := op["par"].(float64); ok && par >= 2 {
+		// a storm: `reps` runs of the same loop spread over `par` goroutines at once (lost wake-ups
+		// and other windows of a few instructions show up once in hundreds of concurrent runs)
+		var mu sync.Mutex
+		var wg sync.WaitGroup
+		timeouts, before := 0, 0
+		var stopAll int32
+		for g := 0; g < int(par); g++ {
+			wg.Add(1)
+			go func(g int) {
+				defer wg.Done()
+				for i := g; i < reps; i += int(par) {
+					if atomic.LoadInt32(&stopAll) != 0 {
+						return
+					}
+					o := w.eng.RunQuery(gname, stmts, deadline)
+					var res jm
+					switch {
+					case o.Err != nil:
+						res = jm{"err": "compile"}
+					case o.Panic != "":
+						res = jm{"panic": true}
+					case o.TimedOut:
+						mu.Lock()
+						timeouts++
+						before = len(o.Rows)
+						mu.Unlock()
+						atomic.StoreInt32(&stopAll, 1)
+						return
+					default:
+						res = jm{"rows": c12Rows(o.Rows)}
+					}
+					b, _ := json.Marshal(res)
+					mu.Lock()
+					if first == "" {
+						first = string(b)
+					}
+					variants[string(b)] = res
+					mu.Unlock()
+				}
+			}(g)
+		}
+		wg.Wait()
+		if timeouts > 0 {
+			return jm{"timeout": true, "rows_before_deadline": before}, true
+		}
+		reps = 0
+	}
 	for i := 0; i < reps; i++ {
 		o := w.eng.RunQuery(gname, stmts, deadline)
 		var res jm
@@ -468,6 +560,9 @@ func c12Replay(r *Run, ops []map[string]interface{}) {
 	for i := range ops {
 		l[i] = ops[i]
 		// replays of a failing line: repeat more often, the failure may depend on timing
+		if _, par := l[i]["par"]; par {
+			continue // a storm is its own repetition
+		}
 		if _, ok := l[i]["reps"]; ok {
 			l[i]["reps"] = 12.0
 		}
